@@ -4,7 +4,7 @@
    (wf_cfg: shard WAL on, member-local clamp of ClearEntryLog, propose ids never reused); Refuted.v shows what fails
    for today's variants. Not expressible here (partial claim): timing, timeouts, real network behaviour. *)
 From Coq Require Import List Arith NArith ZArith Bool Lia Permutation.
-From OG Require Import C05.Model C05.Proofs C05.Invariant C05.Theorems C05.Final C05.Trunc C05.TruncProofs C05.Catchup C05.ReadPath C05.Refine C05.RestartRace.
+From OG Require Import C05.Model C05.Proofs C05.Invariant C05.Theorems C05.Final C05.Trunc C05.TruncProofs C05.Catchup C05.ReadPath C05.Refine C05.RestartRace C05.TruncPM C05.Coord.
 Import ListNotations.
 
 Section C05.
@@ -399,6 +399,45 @@ Example caught_up_master_after_lagmaster_trace :
   end.
 Proof. vm_compute. split; reflexivity. Qed.
 
+(* the weakest rule: elect among the members whose applied prefix contains every ACKNOWLEDGED write (they need not have
+   caught up with everything committed) *)
+Section C05_readpath2.
+  Variable raft_ok : sys -> event -> bool.
+  Hypothesis H_elect : forall s n, raft_ok s (RElect n) = true ->
+    up (nodes s n) = true /\ prefixb (glog s) (elog (nodes s n)) = true.
+  Hypothesis H_repl : forall s m k, raft_ok s (RReplicate m k) = true ->
+    exists l, leader s = Some l /\ m <> l /\ up (nodes s m) = true /\ hcommit (nodes s m) <= k /\
+              k <= length (elog (nodes s l)) /\
+              (prefixb (glog s) (elog (nodes s m)) = true -> length (glog s) <= k).
+  Hypothesis H_commit : forall s k, raft_ok s (RCommit k) = true ->
+    exists l, leader s = Some l /\ length (glog s) <= k /\ k <= length (elog (nodes s l)) /\
+              nn (cfg s) < 2 * count (fun m => prefixb (firstn k (elog (nodes s l))) (elog (nodes s m))) (nn (cfg s)).
+  Hypothesis H_learn : forall s m c, raft_ok s (RLearn m c) = true ->
+    up (nodes s m) = true /\ hcommit (nodes s m) <= c /\ c <= length (glog s) /\
+    firstn c (elog (nodes s m)) = firstn c (glog s).
+
+  Theorem master_covering_every_ack_answers_every_ack : forall c es s nm ps', wf_cfg c ->
+    run raft_ok (init c) es = Some s -> elect_covering s = Some (nm, ps') ->
+    let a := applied (nodes s nm) in
+    (forall k, read s nm k = get (ents_store (firstn a (glog s))) k) /\
+    (forall o p b, In (o, p, b) (acked s) -> In (EData o p b) (firstn a (glog s))) /\
+    (forall k, get (ents_store (skipn a (glog s))) k = None -> read s nm k = get (ents_store (glog s)) k).
+  Proof. exact (covering_master_answers raft_ok H_elect H_repl H_commit H_learn). Qed.
+End C05_readpath2.
+Print Assumptions master_covering_every_ack_answers_every_ack.
+
+(* the rule is strictly weaker than "caught up": an entry whose writer gave up (never acknowledged) is committed but not
+   yet applied on member 1; the master's store dies: no member has caught up, member 1 covers every acknowledgement *)
+Example covering_is_weaker_than_caught_up :
+  match run raft_ref (init (cfg_repaired 3 2))
+        [ RElect 0; Propose 0 [(1%N, 10%Z)]; RReplicate 1 1; RReplicate 2 1; RCommit 1; RLearn 0 1; RLearn 1 1; RLearn 2 1;
+          Apply 0; Apply 1; Apply 2;
+          Propose 0 [(2%N, 20%Z)]; Timeout 0 2%N; RReplicate 1 2; RCommit 2; RLearn 0 2; Apply 0; Kill 0 ] with
+  | Some s => elect_caught_up s = None /\ elect_covering s = Some (1, [0; 2]) /\ length (acked s) = 1 /\ read s 1 1%N = Some 10%Z
+  | None => False
+  end.
+Proof. vm_compute. repeat split. Qed.
+
 (* ---------------------------------------------------------------- the decision model refines the group machine (Refine.v)
    Layered machine: the group machine + a wall clock + one tolerance timer per node; TRound n ms runs Trunc.decide on
    node n with what n sees of the group (leadership, who is up, its snapshot index, its entry-file layout) and performs
@@ -449,3 +488,50 @@ Theorem restart_replay_before_newer_entries_is_log_order : forall c n x es pre,
   applied (replay_then_apply c n x es) = hcommit x + length es.
 Proof. exact replay_then_apply_log_order. Qed.
 Print Assumptions restart_replay_before_newer_entries_is_log_order.
+
+(* ---------------------------------------------------------------- per-member tolerance periods (TruncPM.v; a design variant) *)
+(* a member's entries are given up only after ITS OWN continuous outage of more than T *)
+Theorem per_member_given_up_only_after_own_outage : forall T L pre r j,
+  snap_stays (pre ++ [r]) -> pm_expired T L pre r j = true ->
+  exists p a w, pre ++ [r] = p ++ a :: w /\ (T < r_now r - r_now a)%Z /\
+                forall q, In q (a :: w) -> r_lead q = true /\ nth j (r_alive q) true = false.
+Proof. exact pm_given_up_after_own_outage. Qed.
+Print Assumptions per_member_given_up_only_after_own_outage.
+
+(* ... and the forced index respects the Match of every member whose own period has not expired *)
+Theorem per_member_forced_index_counts_members_within_tolerance : forall n T L pre r idx,
+  decide_pm n T L pre r = DForce idx ->
+  exists mm, idx = gen_idx L (r_snap r) mm /\
+    forall j m, j < n -> j < length (r_match r) -> pm_expired T L pre r j = false -> mm = Some m -> (m <= nth j (r_match r) 0)%N.
+Proof. exact pm_forced_counts_members_within_tolerance. Qed.
+Print Assumptions per_member_forced_index_counts_members_within_tolerance.
+
+(* member 1 is down for six hours, comes back, and member 2 goes down within two minutes: today's group timer forces the
+   truncation with member 2's entries given up; with per-member periods member 1's period ends, member 2's starts *)
+Definition handover_rounds : list round :=
+  map (fun t => mkRound t true [true; false; true] [100%N; 40%N; 100%N] 95%N) [0; 60; 120; 180; 240; 300; 359]%Z.
+Definition handover_last : round := mkRound 361 true [true; true; false] [100%N; 100%N; 90%N] 95%N.
+Example per_member_handover :
+  decide_pm 3 360 (mkLay 30000 1 100) handover_rounds handover_last = DNone /\
+  snd (decide tcfg_repaired 360 (mkLay 30000 1 100) (tstate tcfg_repaired 360 (mkLay 30000 1 100) None handover_rounds) handover_last) = DForce 95%N.
+Proof. vm_compute. split; reflexivity. Qed.
+
+(* ---------------------------------------------------------------- a write request over several shards (Coord.v) *)
+(* acknowledged to the client => every shard the request touches was acknowledged by its store *)
+Theorem batch_ack_means_every_shard_stored : forall fuel scripts, Forall (fun sc => sc <> []) scripts ->
+  fst (batch_write fuel scripts) = true -> Forall (fun sc => In WOk sc) scripts.
+Proof. exact batch_ack_every_shard. Qed.
+Print Assumptions batch_ack_means_every_shard_stored.
+
+(* a partially stored request is never acknowledged *)
+Theorem partially_stored_batch_is_not_acknowledged : forall fuel scripts sc, In sc scripts ->
+  fst (shard_write fuel sc) = false -> fst (batch_write fuel scripts) = false.
+Proof. exact batch_partial_not_acked. Qed.
+
+Theorem fully_stored_batch_is_acknowledged : forall fuel scripts,
+  Forall (fun sc => fst (shard_write fuel sc) = true) scripts -> fst (batch_write fuel scripts) = true.
+Proof. exact batch_all_stored_acked. Qed.
+
+Example partial_batch_demo :
+  batch_write 10 [[WOk]; [WRetry; WFail]; [WRetry; WOk]] = (false, [(true, 1); (false, 2); (true, 2)]).
+Proof. vm_compute. reflexivity. Qed.
